@@ -52,6 +52,33 @@ CUR = None  # the Engine of the path currently being executed (per process)
 
 Z3_TIMEOUT_MS = 60000
 
+# Second-solver cross-check: every CROSSCHECK_EVERY-th query of a process is re-decided by cvc5 (python wheel from the
+# offline wheelhouse) on the SMT-LIB2 text z3 prints for it; a sat/unsat disagreement makes the run inconclusive.
+import os as _os
+CROSSCHECK_EVERY = int(_os.environ.get("VERIF_CROSSCHECK", "0") or 0)
+XSTATS = {"seen": 0, "checked": 0, "agreed": 0, "cvc5_unknown": 0}
+
+
+def cvc5_check(text, tlimit_ms=10000):
+    try:
+        import cvc5
+    except ImportError:
+        return None
+    slv = cvc5.Solver()
+    slv.setOption("tlimit-per", str(tlimit_ms))
+    parser = cvc5.InputParser(slv)
+    parser.setStringInput(cvc5.InputLanguage.SMT_LIB_2_6, text, "query")
+    sm = parser.getSymbolManager()
+    res = None
+    while True:
+        cmd = parser.nextCommand()
+        if cmd.isNull():
+            break
+        out = cmd.invoke(slv, sm).strip()
+        if out in ("sat", "unsat", "unknown"):
+            res = out
+    return res
+
 
 def cur():
     if CUR is None:
@@ -80,7 +107,8 @@ class Engine:
         self.requires = 0
         self.poison = None           # reason string if an Unsupported was raised (even if swallowed)
         self.nfresh = 0
-        self.pending = None          # (kind, msg) of a raised engine signal; survives being swallowed by
+        self.xchecked = self.xagreed = 0
+        self.pending = None         # (kind, msg) of a raised engine signal; survives being swallowed by
                                      # "except BaseException" clauses in the code under test
 
     # ---- solver plumbing
@@ -93,7 +121,30 @@ class Engine:
             self.poison = "z3 unknown: %s" % self.solver.reason_unknown()
             self.pending = ("inconclusive", self.poison)
             raise Inconclusive(self.poison)
+        if CROSSCHECK_EVERY and (XSTATS["seen"] % CROSSCHECK_EVERY) == 0:
+            self._crosscheck(extra, r)
+        XSTATS["seen"] += 1
         return r == z3.sat
+
+    def _crosscheck(self, extra, r):
+        """Second opinion from cvc5 on the same query (every CROSSCHECK_EVERY-th query of this process)."""
+        s2 = z3.Solver()
+        s2.add(self.solver.assertions())
+        for e in extra:
+            s2.add(e)
+        verdict = cvc5_check("(set-logic ALL)\n" + s2.to_smt2())
+        XSTATS["checked"] += 1
+        self.xchecked += 1
+        if verdict in ("sat", "unsat"):
+            if verdict == str(r):
+                self.xagreed += 1
+            if verdict != str(r):
+                self.poison = "solver disagreement: z3 says %s, cvc5 says %s" % (r, verdict)
+                self.pending = ("inconclusive", self.poison)
+                raise Inconclusive(self.poison)
+            XSTATS["agreed"] += 1
+        else:
+            XSTATS["cvc5_unknown"] += 1
 
     def add(self, cond):
         self.solver.add(cond)
